@@ -8,6 +8,7 @@ and two stores that disagree are a violation at the store that extends the other
 from __future__ import annotations
 
 import ast
+import os
 from typing import Dict, List, Optional, Tuple
 
 from sa.core import AnalysisError, unparse, FuncInfo
@@ -323,7 +324,8 @@ def check_site(repo, col, cl: Classifier, rule, fi, kind, arr, idx, node, kcs=KC
     arr = strip_alias(repo, arr) if arr.op in ("item", "mcall", "call") else arr
     if isinstance(fi, FuncInfo):
         try:
-            idx = inline(repo, fi, idx)  # an index produced by a local / private helper is classified through it
+            from sa.terms import fuse_comprehensions as _fuse
+            idx = _fuse(inline(repo, fi, idx))  # an index produced by a helper / comprehension is classified through it
         except Exception:
             pass
     if arr.op == "sub":
@@ -332,6 +334,15 @@ def check_site(repo, col, cl: Classifier, rule, fi, kind, arr, idx, node, kcs=KC
     for kc in kcs:
         d = cl.domain(arr, kc)
         s = cl.space(idx, kc)
+        if d is not None and s is None and os.environ.get("VERIF_DEBUG_SPACES"):
+            print("UNKNOWN-SPACE", fi.qual if isinstance(fi, FuncInfo) else fi, kc, d, idx.short(100))
+        if d is not None and s is None:
+            # the array is known to be laid out in a specific space but the numbering of the index cannot be derived: never
+            # pass silently (a converter that is no longer the rank within the synapse type ends here)
+            col.unk(rule, fi, f"{label or unparse(node)} [{kc} key]",
+                    f"the array is indexed over {_name(d)} but the space of the index `{idx.short(80)}` is not derivable", node=node)
+            n += 1
+            continue
         if d is None or s is None:
             continue
         n += 1
@@ -369,7 +380,13 @@ def subst(t: T, m: dict) -> T:
 
 def _pure_helper(ex: Expander) -> Optional[T]:
     """The return term of a helper that only computes a value (one return, no store into anything)."""
-    if len(ex.returns) != 1 or ex.stores:
+    def local_fill(s_):
+        """a store that only fills a container created inside the helper (result list built with append)"""
+        root = s_.base
+        while root.op in ("listacc", "phi", "sub") and root.args:
+            root = root.args[0]
+        return s_.kind == "mcall" and s_.key.name in ("append", "extend") and root.op in ("list", "carried", "dict")
+    if len(ex.returns) != 1 or any(not local_fill(s_) for s_ in ex.stores):
         return None
     if T.find(ex.returns[0], lambda x: x.op in ("localfn", "lambda")) is not None:
         return None  # a factory of closures is not a value helper
@@ -398,6 +415,12 @@ def _bind(fnode, args, kw, skip_self=False):
             else:
                 return None
     return m
+
+
+def _is_module_recv(t: T) -> bool:
+    while t.op == "attr" and t.name == "base":
+        t = t.args[0]
+    return t.op == "param" and t.name in ("self", "module", "net", "network", "cell", "view", "pointer")
 
 
 def inline(repo, fi: FuncInfo, t: T, depth: int = 3, keep=()) -> T:
@@ -430,6 +453,16 @@ def inline(repo, fi: FuncInfo, t: T, depth: int = 3, keep=()) -> T:
     elif t2.op == "mcall" and t2.name not in keep and t2.args and t2.args[0].op == "param" and t2.args[0].name == "self" and fi.cls:
         for c in repo.mro(fi.cls):
             if t2.name in c.methods:
+                callee_ex = expander(repo, c.methods[t2.name])
+                call_args = list(t2.args[1:])
+                skip_self = True
+                recv = t2.args[0]
+                break
+    elif t2.op == "mcall" and t2.name not in keep and t2.args and t2.name.startswith("_") and _is_module_recv(t2.args[0]):
+        # a private method called on a module-typed receiver (module._helper(), self.base._helper())
+        for cn in MODULE_CLASSES:
+            c = repo.classes.get(cn)
+            if c is not None and t2.name in c.methods:
                 callee_ex = expander(repo, c.methods[t2.name])
                 call_args = list(t2.args[1:])
                 skip_self = True
